@@ -41,7 +41,8 @@ def load_known():
     return json.load(open(p))
 
 
-def native(args, timeout=900):
+def native(args, timeout=None):
+    timeout = timeout or (300 if "quick" in args else 1800)
     env = dict(os.environ)
     env["PYVC_REPO"] = REPO
     try:
@@ -67,7 +68,7 @@ def run_bounded(prop, name, tier, seed):
         env["PYTHONPATH"] = REPO + os.pathsep + env.get("PYTHONPATH", "")
     try:
         p = subprocess.run([py, os.path.join(HERE, "bounded", "run.py"), name, tier, str(seed)],
-                           capture_output=True, text=True, timeout=3600, env=env, cwd=HERE)
+                           capture_output=True, text=True, timeout=600 if tier == "quick" else 7200, env=env, cwd=HERE)
         return json.loads(p.stdout.strip().splitlines()[-1])
     except Exception as e:   # noqa: BLE001
         return {"status": "error", "error": f"{type(e).__name__}: {e}",
@@ -83,6 +84,25 @@ def watchdog(seconds):
         sys.stdout.flush()
         print(f"CHECKER-ERROR: no verdict within {seconds}s (watchdog); thread stacks follow on stderr", flush=True)
         faulthandler.dump_traceback(all_threads=True)
+        kids = []
+        try:
+            me = str(os.getpid())
+            for pid in os.listdir("/proc"):
+                if pid.isdigit():
+                    try:
+                        st_ = open(f"/proc/{pid}/stat").read().rsplit(")", 1)[1].split()
+                        if st_[1] == me:
+                            kids.append(int(pid))
+                    except OSError:
+                        pass
+            for k in kids:
+                sys.stderr.write(f"--- worker {k}: {open(f'/proc/{k}/cmdline').read().replace(chr(0), ' ')[:200]}\n")
+                os.kill(k, signal.SIGUSR1)
+            time.sleep(2)
+            for k in kids:
+                os.kill(k, signal.SIGKILL)
+        except Exception as e:   # noqa: BLE001
+            sys.stderr.write(f"(could not signal the workers: {e})\n")
         os._exit(3)
     signal.signal(signal.SIGALRM, fire)
     signal.alarm(seconds)
